@@ -148,7 +148,7 @@ func checkC06(w *Worker) {
 				ref := reference(c06Cmd{"summary", []string{"summary"}, false}, sel, []string{d})
 				x.Case(fmt.Sprintf("summary|%v|%s|%d", dates, d, tz), len(sel) > 0 && len(sel) < len(l))
 				rep := map[string]interface{}{"cmd": c.shell(), "tz_offset_s": tz, "observed": r.String(), "expected": ref.String()}
-				if r.Key() != ref.Key() {
+				if c06Differs(r, ref) {
 					x.Violate("C06|summary|differs-from-restricted-log", fmt.Sprintf("`%s` (TZ offset %ds) on days %v\nprinted:\n%s\nthe same command on the log restricted to that day prints:\n%s", c.shell(), tz, dates, r.String(), ref.String()), rep)
 				}
 				if (len(sel) > 0) != (strings.TrimSpace(r.Stdout) != "") && !r.Failed {
@@ -210,7 +210,7 @@ func checkC06(w *Worker) {
 			ref := reference(cmd, sel, nil)
 			x.Case(fmt.Sprintf("%s|%v|%s|%s|%d|%d", cmd.Name, dates, b, e, pos, tz), len(sel) > 0 && len(sel) < len(l))
 			x.Sample(map[string]interface{}{"cmd": c.shell(), "tz_offset_s": tz, "selected_days": len(sel), "stdout": r.Stdout})
-			if r.Key() != ref.Key() {
+			if c06Differs(r, ref) {
 				posName := []string{"global", "sub-command", "sub-command-over-global"}[pos]
 				kind := "wrong-selection"
 				if tz != 0 {
@@ -267,7 +267,7 @@ func checkC06(w *Worker) {
 		ref := reference(cmd, sel, nil)
 		x.Obs(r.Key())
 		x.Case(fmt.Sprint(cmd.Name, split, b, e, tz), len(sel) > 0 && len(sel) < len(l))
-		if r.Key() != ref.Key() {
+		if c06Differs(r, ref) {
 			x.Violate("C06|"+cmd.Name+"|split-period|wrong-selection", fmt.Sprintf("`%s` (TZ offset %ds): begin=%q end=%q\nprinted:\n%s\nwith the other days deleted and no period the same command prints:\n%s", c.shell(), tz, b, e, r.String(), ref.String()),
 				map[string]interface{}{"cmd": c.shell(), "observed": r.String(), "expected": ref.String(), "begin": b, "end": e})
 		}
@@ -305,7 +305,7 @@ func checkC06(w *Worker) {
 		ref := runApp(appCase{Args: append([]string{"--no-color", "--today", c06Today}, cmd.Args...), Files: map[string]string{"food.yaml": book, "log.yaml": renderLog(sel)}})
 		x.Obs(r.Key())
 		x.Case(fmt.Sprint(sc.Name, cmd.Name, b, e), len(sel) > 0 && len(sel) < len(sc.Log))
-		if r.Key() != ref.Key() {
+		if c06Differs(r, ref) {
 			x.Violate("C06|"+cmd.Name+"|special-scenario|wrong-selection", fmt.Sprintf("scenario %s: `%s`\nprinted:\n%s\nwith the other days deleted and no period the same command prints:\n%s", sc.Name, tailStr(c.shell(), 1500), tailStr(r.String(), 1500), tailStr(ref.String(), 1500)),
 				map[string]interface{}{"scenario": sc.Name, "begin": b, "end": e, "command": cmd.Name})
 		}
@@ -377,7 +377,7 @@ func checkC06(w *Worker) {
 		ref := runApp(appCase{Args: append([]string{"--no-color", "--today", today}, cmd...), Files: map[string]string{"food.yaml": bookText, "log.yaml": renderLog(sel)}})
 		x.Obs(r.Key())
 		x.Case(fmt.Sprint(zone, today, k, side, cmd), true)
-		if r.Failed != ref.Failed || r.Stdout != ref.Stdout {
+		if c06Differs(r, ref) {
 			x.Violate("C06|"+strings.Join(cmd, " ")+"|daylight-saving-zone|differs-from-restricted-log", fmt.Sprintf("`%s` (--today %s, bound %s = %s)\nprinted:\n%s\nwith the other days deleted and no period the same command prints:\n%s", c.shell(), today, k, fromDayNumber(bn), r.String(), ref.String()),
 				map[string]interface{}{"cmd": c.shell(), "observed": r.String(), "expected": ref.String()})
 		}
@@ -444,7 +444,7 @@ func checkC06(w *Worker) {
 		ref := runApp(appCase{Args: append([]string{"--no-color", "--date-format", format, "--today", conv(c06Today)}, cmd.Args...), Files: map[string]string{"food.yaml": bookText, "log.yaml": inFormat(sel)}})
 		x.Obs(r.Key())
 		x.Case(fmt.Sprint(format, ci, b, e), b != "" || e != "")
-		if r.Failed != ref.Failed || r.Stdout != ref.Stdout {
+		if c06Differs(r, ref) {
 			x.Violate("C06|"+cmd.Name+"|date-format|differs-from-restricted-log", fmt.Sprintf("`%s`\nprinted:\n%s\nwith the other days deleted and no period the same command prints:\n%s", c.shell(), r.String(), ref.String()),
 				map[string]interface{}{"cmd": c.shell(), "observed": r.String(), "expected": ref.String()})
 		}
@@ -475,7 +475,7 @@ func checkC06(w *Worker) {
 		x.Obs(r.Key())
 		name := strings.Join(shapes[si], " ")
 		x.Case(fmt.Sprint(name, dates, b, e), len(sel) > 0 && len(sel) < len(l))
-		if r.Key() != ref.Key() {
+		if c06Differs(r, ref) {
 			x.Violate("C06|"+name+"|global|wrong-selection", fmt.Sprintf("`%s`, log days %v, begin=%q end=%q\nprinted:\n%s\nwith the other days deleted and no period the same command prints:\n%s", c.shell(), dates, b, e, r.String(), ref.String()),
 				map[string]interface{}{"cmd": c.shell(), "observed": r.String(), "expected": ref.String()})
 		}
@@ -495,4 +495,11 @@ func btoi(b bool) int {
 		return 1
 	}
 	return 0
+}
+
+// c06Differs: every bound used by this check is a legal date or keyword, so a command that FAILS has not selected the
+// period either - even when the reference run happens to fail in the same way (a differential oracle alone would
+// call two identical failures an agreement).
+func c06Differs(r, ref AppRun) bool {
+	return r.Failed || ref.Failed || r.Panic != "" || ref.Panic != "" || r.Key() != ref.Key()
 }
